@@ -1040,10 +1040,13 @@ package mqtt
 //@ invariant copy: forall k string :: (has(rangemap1, k) <==> has(n.particles.internal, k)) && rangemap1[k] == n.particles.internal[k]
 //@ invariant valid: trieInv(x) && retInv(x) && n != nil && inTrie(n) && tdepth(n) == d && n == (n0 == nil ? x.root : n0)
 // the entry point
+// every lookup of retained messages is counted (ghost)
+// verif:ghost var nretlookups int
 // verif:func mqtt.TopicsIndex.Messages uses=rmatch-def
 //@ requires trieInv(x) && retInv(x)
 //@ requires len(filter) > 0 ==> nlevels(filter) >= 1 && nlevels(filter) <= 1099511627776 && hashLast(filter)
-//@ modifies x.Retained.ggot
+//@ modifies x.Retained.ggot, nretlookups
+//@ axiom nretlookups == old(nretlookups) + 1
 //@ ensures C02-a-filter-without-wildcards-returns-only-the-identical-topic: noWild(filter) ==> (forall t string :: x.Retained.ggot[t] == old(x.Retained.ggot[t]) + ((len(filter) > 0 && t == filter && has(x.Retained.internal, t)) ? 1 : 0))
 //@ ensures C02-exactly-the-matching-retained-messages-each-once: !noWild(filter) ==> (forall t string :: x.Retained.ggot[t] == old(x.Retained.ggot[t]) + ((len(filter) > 0 && retHit(x, t, nil, 0, filter)) ? 1 : 0))
 
@@ -1250,6 +1253,8 @@ package mqtt
 // verif:ghost var ninlinecalls int
 // verif:func mqtt.InlineSubFn trusted modifies=all params=cl,sub,pk
 //@ axiom ninlinecalls == old(ninlinecalls) + 1
+// (an inline handler does not itself subscribe, unsubscribe or look up retained messages while it runs: assumed, A-hooks)
+//@ axiom nretlookups == old(nretlookups) && ninlinesub == old(ninlinesub) && ninlineunsub == old(ninlineunsub)
 // verif:func mqtt.Server.Publish modifies=all
 //@ requires s.Options != nil
 //@ ensures C40-nothing-is-published-while-the-inline-client-is-disabled: !s.Options.InlineClient ==> r0 != nil
@@ -1258,11 +1263,12 @@ package mqtt
 // verif:func mqtt.Server.Subscribe modifies=all
 //@ requires s.Options != nil && s.hooks != nil && s.Topics != nil && s.Topics.root != nil && s.inlineClient != nil
 //@ ensures C40-invalid-filter-or-missing-handler-creates-nothing: (!s.Options.InlineClient || handler == nil || !validSub(filter)) ==> r0 != nil && ninlinesub == old(ninlinesub)
+//@ ensures C40-a-successful-subscribe-registers-once-and-looks-up-the-retained-messages-once: r0 == nil ==> ninlinesub == old(ninlinesub) + 1 && nretlookups == old(nretlookups) + 1
 //@ callsite mqtt.TopicsIndex.InlineSubscribe C40-the-inline-subscription-is-registered-for-this-filter-and-identifier: arg1.Subscription.Filter == filter && arg1.Subscription.Identifier == subscriptionId && arg1.Handler == handler && validSub(filter)
 //@ callsite mqtt.TopicsIndex.Messages C40-retained-messages-of-the-filter-after-the-subscription-is-in-place: arg1 == filter && ninlinesub == old(ninlinesub) + 1
 //@ callsite mqtt.InlineSubFn C40-each-retained-message-goes-to-this-subscriptions-handler: arg0 == s.inlineClient && arg1.Filter == filter && arg1.Identifier == subscriptionId
 // verif:loop mqtt.Server.Subscribe 1
-//@ invariant s.inlineClient == old(s.inlineClient)
+//@ invariant s.inlineClient == old(s.inlineClient) && ninlinesub == old(ninlinesub) + 1 && nretlookups == old(nretlookups) + 1
 
 // verif:func mqtt.Server.Unsubscribe modifies=all
 //@ requires s.Options != nil && s.hooks != nil && s.Topics != nil && s.Topics.root != nil && s.inlineClient != nil
